@@ -205,9 +205,17 @@ def check_session_invariant(src, out, res, known):
 
 
 def sessions_exhaustive(depth):
-    for k in range(1, depth + 1):
-        for combo in itertools.product(range(len(ALPHABET)), repeat=k):
-            yield "\n".join(ALPHABET[i] for i in combo) + "\n" + TAIL
+    """every sequence of up to 2 entries of the whole alphabet; of up to `depth` entries of the single-statement
+    core and of the scripted entries separately (their product would be 70^3 sessions)"""
+    core = [a for a in ALPHABET if a not in SCRIPTED]
+    seen = set()
+    for pool_, d in ((ALPHABET, min(depth, 2)), (core, depth), (SCRIPTED, depth)):
+        for k in range(1, d + 1):
+            for combo in itertools.product(range(len(pool_)), repeat=k):
+                sx = "\n".join(pool_[i] for i in combo) + "\n" + TAIL
+                if sx not in seen:
+                    seen.add(sx)
+                    yield sx
 
 
 def main(argv):
